@@ -4,6 +4,7 @@ package checks
 import (
 	"sort"
 
+	"verif/harness/mon"
 	"verif/harness/vk"
 )
 
@@ -31,4 +32,15 @@ func IDs() []string {
 	}
 	sort.Strings(out)
 	return out
+}
+
+func init() {
+	// the yield-instrumented build reports which points between critical sections were reached
+	vk.ExtraCoverage = func() map[string]interface{} {
+		if !mon.YieldEnabled {
+			return nil
+		}
+		points, calls, slept := mon.YieldStats()
+		return map[string]interface{}{"yield_instrumented_build": true, "yield_points_reached": points, "yield_calls": calls, "yield_calls_that_slept": slept}
+	}
 }
